@@ -130,9 +130,13 @@ def install(I):
         None, {"alg": alg_name(algorithm), "length": length, "salt": salt, "info": info}, kind="crypto.HKDF")
     M["crypto.HKDF._extract"] = lambda I, o, ikm: BApp("HKDF-Extract", [o.attrs["alg"], o.attrs["salt"], ikm], DIGEST[o.attrs["alg"]])
     # block / stream ciphers
+    def _key(key):
+        if not core.is_byteslike(key):
+            raise PyExc("TypeError", "key must be bytes-like (assumed contract of cryptography's algorithm constructors)")
+        return to_bytes_val(key)
     for a in ("AES", "TripleDES", "Camellia", "IDEA", "ARC4"):
-        M[C + "algorithms." + a] = (lambda a: (lambda I, key: Obj(None, {"key": to_bytes_val(key)}, kind="alg:" + a)))(a)
-    M[C + "algorithms.ChaCha20"] = lambda I, key, nonce: Obj(None, {"key": to_bytes_val(key), "nonce": to_bytes_val(nonce)}, kind="alg:ChaCha20")
+        M[C + "algorithms." + a] = (lambda a: (lambda I, key: Obj(None, {"key": _key(key)}, kind="alg:" + a)))(a)
+    M[C + "algorithms.ChaCha20"] = lambda I, key, nonce: Obj(None, {"key": _key(key), "nonce": _key(nonce)}, kind="alg:ChaCha20")
     M[C + "modes.ECB"] = lambda I: Obj(None, {}, kind="mode:ECB")
     M[C + "modes.CBC"] = lambda I, iv: Obj(None, {"iv": to_bytes_val(iv)}, kind="mode:CBC")
     M[C + "Cipher"] = lambda I, algorithm, mode=None, backend=None: Obj(None, {"alg": algorithm, "mode": mode}, kind="crypto.Cipher")
